@@ -164,6 +164,100 @@ def k_ttl_roundtrip(desc, F, s):
     return None
 
 
+def k_ttl_roundtrip_long(desc, F, s):
+    """same as k_ttl_roundtrip for strings containing a newline (the triple-quoted branch of Literal._quote_encode)"""
+    return k_ttl_roundtrip(desc, F, "\n" + s)
+
+
+def _match_xsd(dt, s):
+    """hand-written matchers of the XSD lexical spaces (no regex on symbolic strings)"""
+    if dt == "boolean":
+        return s == "true" or s == "false" or s == "1" or s == "0"
+    i = 0
+    n = len(s)
+    if i < n and (s[i] == "+" or s[i] == "-"):
+        i += 1
+    d1 = 0
+    while i < n and s[i] in "0123456789":
+        i += 1
+        d1 += 1
+    if dt == "integer":
+        return d1 > 0 and i == n
+    # decimal: digits+ ('.' digits*)? | '.' digits+
+    if i == n:
+        return d1 > 0
+    if s[i] != ".":
+        return False
+    i += 1
+    d2 = 0
+    while i < n and s[i] in "0123456789":
+        i += 1
+        d2 += 1
+    return i == n and (d1 > 0 or d2 > 0)
+
+
+def _turtle_numeric_type(t):
+    """which datatype the Turtle grammar assigns to the bare token t (INTEGER / DECIMAL / DOUBLE / boolean), else None"""
+    if t == "true" or t == "false":
+        return "boolean"
+    i = 0
+    n = len(t)
+    if i < n and (t[i] == "+" or t[i] == "-"):
+        i += 1
+    d1 = 0
+    while i < n and t[i] in "0123456789":
+        i += 1
+        d1 += 1
+    if i == n:
+        return "integer" if d1 > 0 else None
+    if t[i] == ".":
+        i += 1
+        d2 = 0
+        while i < n and t[i] in "0123456789":
+            i += 1
+            d2 += 1
+        if i == n:
+            return "decimal" if d2 > 0 else None
+    return None  # exponents are not produced by the branches under test
+
+
+def k_plain_num(desc, F, s):
+    """Literal._literal_n3(use_plain=True) on a receiver stub whose lexical form is the symbolic s, constrained to the XSD
+    lexical space of the datatype: the shorthand token must be re-typed by the Turtle grammar as the same datatype"""
+    from rdflib import term
+    dt = desc["dt"]
+    if not _match_xsd(dt, s):
+        return None
+
+    class Stub:
+        datatype = {"integer": term._XSD_INTEGER, "decimal": term._XSD_DECIMAL, "boolean": term._XSD_BOOLEAN}[dt]
+        value = 1  # "a value could be determined"
+        language = None
+
+        def __format__(self, spec):
+            return s
+
+        def __str__(self):
+            return s
+
+        def __float__(self):
+            return 1.0  # finite: the INF/NaN guard of _literal_n3 is not the subject
+
+        def _quote_encode(self):
+            return term.Literal._quote_encode(s)
+
+        def _literal_n3(self, use_plain=False, qname_callback=None):
+            return term.Literal._literal_n3(self, use_plain, qname_callback)
+
+    out = term.Literal._literal_n3(Stub(), True)
+    if len(out) > 0 and out[0] == '"':
+        return None  # written in quoted form with its datatype: nothing is re-typed
+    got = _turtle_numeric_type(out)
+    if got != dt:
+        return "Turtle shorthand for a valid xsd:%s lexical form is read back as %s" % (dt, got or "something else")
+    return None
+
+
 def k_ttl_reader(desc, F, a, b):
     """differential: SinkParser.strconst vs the grammar-derived decoder on  <delim> a <escape> b <delim>  where the
     escape is enumerated by shape and a, b are symbolic strings of legal plain characters"""
@@ -272,7 +366,7 @@ def _xml_unescape(e):
     return out
 
 
-BODIES = {"k-nt-writer": k_nt_writer, "k-nt-quoteliteral": k_nt_quoteliteral, "k-ttl-roundtrip": k_ttl_roundtrip,
+BODIES = {"k-ttl-roundtrip-long": k_ttl_roundtrip_long, "k-plain-num": k_plain_num, "k-nt-writer": k_nt_writer, "k-nt-quoteliteral": k_nt_quoteliteral, "k-ttl-roundtrip": k_ttl_roundtrip,
           "k-ttl-reader": k_ttl_reader, "k-nt-reader": k_nt_reader, "k-xml-text": k_xml_text}
 
 ESCAPES = ["", "\\n", "\\t", "\\\"", "\\'", "\\\\", "\\r", "\\b", "\\f", "\\u0041", "\\u00e9", "\\U0001F600", "\\u005C", "\\u0022"]
